@@ -154,6 +154,103 @@ MkDeclS(s) ==
 SpaceS == [rhs : {"R3v", "R8"}, meth : {"MS", "SS", "DC"}, N : 1..(IF Thorough THEN 3 ELSE 2), M : 1..2, grid : {"uni", "geo"},
            hz : {"num", "fb"}, seed : IF Thorough THEN {Seed, Seed + 1} ELSE {Seed}, cons : {<<>>}, obj : {<<>>}]
 
+(***************************************************************************)
+(* C10 family: guesses.  C14: scales.  C11: free horizons.  C09: parameter *)
+(* kinds.  All reuse the declaration builder below.                        *)
+(***************************************************************************)
+Gc(sym, v) == [sym |-> sym, form |-> "const", e |-> CI(0), vals |-> <<v>>, np |-> FALSE]
+Ge(sym, e) == [sym |-> sym, form |-> "expr", e |-> e, vals |-> <<>>, np |-> FALSE]
+Gcols(sym, vals, np) == [sym |-> sym, form |-> "cols", e |-> CI(0), vals |-> vals, np |-> np]
+SymT == [op |-> "T", i |-> 0]
+SymT0 == [op |-> "t0", i |-> 0]
+Ramp(n) == Tup([c \in 1..n |-> Q(2 * c - 3, 2)])
+GuessIds == {"none", "xc", "xe", "xcols", "uc", "ue", "ucolsN", "ucolsNp", "vcols", "ve", "vg", "T", "t0", "twice", "mix", "z"}
+GuessSeq(id, d, N) ==
+  LET hasV == Len(d.vars) >= 2
+      hasZ == Len(d.algs) >= 1
+  IN CASE id = "none"    -> <<>>
+       [] id = "xc"      -> <<Gc(X(1), Q(3, 2))>>
+       [] id = "xe"      -> <<Ge(X(1), Plus(Times(CI(2), Tm), CI(1)))>>
+       [] id = "xcols"   -> <<Gcols(X(1), Ramp(N + 1), FALSE)>>
+       [] id = "uc"      -> <<Gc(U(1), Q(-5, 2))>>
+       [] id = "ue"      -> <<Ge(U(1), Plus(Sq(Tm), T0))>>
+       [] id = "ucolsN"  -> <<Gcols(U(1), Ramp(N), FALSE)>>
+       [] id = "ucolsNp" -> <<Gcols(U(1), Ramp(N), TRUE)>>
+       [] id = "vcols"   -> IF hasV THEN <<Gcols(V(1), Ramp(N), TRUE)>> ELSE <<>>
+       [] id = "ve"      -> IF hasV THEN <<Ge(V(1), Minus(Tm, TT))>> ELSE <<>>
+       [] id = "vg"      -> IF hasV THEN <<Gc(V(2), Q(7, 2))>> ELSE <<>>
+       [] id = "T"       -> IF d.T.kind = "free" THEN <<Gc(SymT, Q(5, 2))>> ELSE <<>>
+       [] id = "t0"      -> IF d.t0.kind = "free" THEN <<Gc(SymT0, Q(3, 4))>> ELSE <<>>
+       [] id = "twice"   -> <<Gc(X(1), Q(3, 2)), Ge(U(1), Tm), Ge(X(1), Minus(CI(1), Tm)), Gc(U(1), Q(1, 4))>>
+       [] id = "mix"     -> <<Ge(X(1), Times(Tm, Tm)), Gcols(U(1), Ramp(N), FALSE)>>
+                            \o (IF d.T.kind = "free" THEN <<Gc(SymT, Q(3, 1))>> ELSE <<>>)
+       [] id = "z"       -> IF hasZ THEN <<Ge(Z(1), Plus(Tm, CI(2))), Gc(X(1), Q(1, 2))>> ELSE <<>>
+
+ScaleSets == {"s0", "s1", "s2"}
+WithScales(d, sid) ==
+  LET f == CASE sid = "s0" -> One [] sid = "s1" -> R(2) [] sid = "s2" -> Q(1, 4)
+      sx(i) == Mul(f, R(i))
+  IN IF sid = "s0" THEN d
+     ELSE [d EXCEPT !.states = Tup([i \in 1..Len(d.states) |-> [scale |-> sx(i), dscale |-> Mul(f, R(3))]]),
+                    !.controls = Tup([i \in 1..Len(d.controls) |-> [scale |-> Mul(f, R(5))]]),
+                    !.algs = Tup([i \in 1..Len(d.algs) |-> [scale |-> Mul(f, R(7))]]),
+                    !.vars = Tup([i \in 1..Len(d.vars) |-> [kind |-> d.vars[i].kind, scale |-> Mul(f, R(i + 1))]]),
+                    !.cons = Tup([i \in 1..Len(d.cons) |-> Scaled(d.cons[i], Mul(f, R(i + 2)))])]
+
+\* parameter-dependent constraint / objective / read-back for the C09 family
+KP == Con("kP", "le", X(1), Plus(CI(5), P(1)), "control", TRUE, TRUE)
+KQ == Box("kQ", NegE(P(1)), U(1), Plus(P(1), CI(9)), "control", TRUE, FALSE)
+OP == AtTf(Times(X(1), P(1)))
+
+MkDeclX(s) ==
+  LET N == s.N
+      d0 == Rhs(s.rhs, N)
+      dcs == SchemeOf(IF s.meth = "DC" THEN s.intg ELSE "radau2")
+      d1 == [d0 EXCEPT !.method = IF s.meth = "DC" THEN MethodDC(N, s.M, dcs[1], dcs[2], IF s.grid = "free" THEN FreeG ELSE WithLocal(GridOf(s.grid, N), FALSE, s.lT))
+                                  ELSE Method(s.meth, N, s.M, s.intg, IF s.grid = "free" THEN FreeG ELSE WithLocal(GridOf(s.grid, N), FALSE, s.lT)),
+                       !.cons = Tup([i \in 1..Len(s.cons) |-> IF s.cons[i] = "kP" THEN KP ELSE IF s.cons[i] = "kQ" THEN KQ ELSE ConOf(s.cons[i])]),
+                       !.obj = Tup([i \in 1..Len(s.obj) |-> IF s.obj[i] = "oP" THEN OP ELSE ObjOf(s.obj[i])]),
+                       !.quads = IF \E i \in 1..Len(s.obj) : s.obj[i] = "o6" THEN <<Q1>> ELSE <<>>,
+                       !.reads = <<Read("C07.b", "value", TT, ""), Read("C07.b", "value", T0, ""), Read("C07.b", "value", TF, "")>>
+                                 \o (IF Family = "C09" /\ s.rhs # "R8" THEN <<Read("C09.c", "sample", P(1), "control")>> ELSE <<>>)]
+      d2 == WithHorizon(d1, s.hz, IF s.seed % 2 = 0 THEN One ELSE Q(-1, 2), TBase(IF s.grid = "free" THEN "uni" ELSE s.grid, N))
+      d3 == [d2 EXCEPT !.init = GuessSeq(s.gs, d2, N)]
+  IN WithScales(d3, s.scl)
+
+MkProbeX(d, s) ==
+  LET p0 == MkProbe(d, s.seed)
+      G == d.method.grid
+      N == d.method.N
+      g == IF G.kind = "free"
+           THEN CumSum(d.t0.v, Tup([k \in 1..N |-> Mul(d.T.v, Q(IF k % 2 = 1 THEN 1 ELSE 2, (3 * N - (N % 2)) \div 2))]), 1)
+           ELSE Declared(G, N, d.t0.v, d.T.v)
+  IN [p0 EXCEPT !.gv = GvOf(g, N)]
+
+XFields == [lT : {FALSE}, gs : {"none"}, scl : {"s0"}, when : {"before"}]
+SpaceX ==
+  CASE Family = "C10" ->
+         {s \in [rhs : {"R2", "R3", "R6"}, meth : {"MS", "SS", "DC"}, intg : {"rk", "radau2"}, N : 2..3, M : 1..2, grid : {"uni", "geo"},
+                 hz : {"num", "fb"}, seed : {Seed}, cons : {<<>>}, obj : {<<>>}, lT : {FALSE}, gs : GuessIds, scl : {"s0"},
+                 when : {"before", "after"}] :
+              /\ (s.meth = "DC" <=> s.intg = "radau2") /\ (s.rhs = "R6" => s.meth = "DC")}
+    [] Family = "C14" ->
+         {s \in [rhs : {"R2", "R3", "R6"}, meth : {"MS", "SS", "DC"}, intg : {"rk", "radau2"}, N : 1..2, M : 1..2, grid : {"uni", "geo"},
+                 hz : {"num", "fb"}, seed : {Seed}, cons : {<<"k1", "k3", "k4">>, <<"k7", "k5">>}, obj : {<<"o1", "o3">>, <<"o6">>}, lT : {FALSE},
+                 gs : {"none", "mix", "twice"}, scl : {"s1", "s2"}, when : {"before"}] :
+              /\ (s.meth = "DC" <=> s.intg = "radau2") /\ (s.rhs = "R6" => s.meth = "DC")}
+    [] Family = "C11" ->
+         {s \in [rhs : {"R2", "R4"}, meth : {"MS", "SS", "DC"}, intg : {"rk", "expl_euler", "radau2", "legendre1"}, N : 1..3, M : 1..2,
+                 grid : {"uni", "geo", "fun", "free"}, hz : {"fT", "ft0", "fb"}, seed : {Seed}, cons : {<<"k1", "k5">>}, obj : {<<"o7", "o8", "o1">>, <<"o5", "o6">>},
+                 lT : BOOLEAN, gs : {"none", "T", "t0"}, scl : {"s0"}, when : {"before"}] :
+              /\ (s.meth = "DC" <=> s.intg \in {"radau2", "legendre1"})
+              /\ (s.lT => s.grid \in {"uni", "geo"})}
+    [] Family = "C09" ->
+         {s \in [rhs : {"R2", "R3", "R4", "R8"}, meth : {"MS", "SS", "DC"}, intg : {"rk", "radau2"}, N : 1..3, M : 1..2, grid : {"uni", "fun"},
+                 hz : {"num", "pT", "fT"}, seed : {Seed, Seed + 1}, cons : {<<"kP", "kQ">>}, obj : {<<"oP", "o3">>, <<"o6", "oP">>}, lT : {FALSE},
+                 gs : {"none"}, scl : {"s0"}, when : {"before"}] :
+              (s.meth = "DC" <=> s.intg = "radau2")}
+
+IsX == Family \in {"C09", "C10", "C11", "C14"}
 MaxN == IF Thorough THEN 4 ELSE 3
 MaxM == IF Thorough THEN 3 ELSE 2
 
@@ -199,14 +296,14 @@ Code(s) == s.N + 3 * s.M + s.seed + Len(s.cons) + Len(s.obj)
            + (CASE s.grid = "uni" -> 0 [] s.grid = "geo" -> 1 [] s.grid = "geoL" -> 2 [] s.grid = "fun" -> 3 [] OTHER -> 4)
            + (CASE s.meth = "MS" -> 0 [] OTHER -> 5)
 
-Init == sc \in {s \in (CASE Family = "C06" -> SpaceG [] Family = "C07" -> SpaceS [] OTHER -> Space) : Code(s) % Parts = Part}
+Init == sc \in {s \in (CASE Family = "C06" -> SpaceG [] Family = "C07" -> SpaceS [] IsX -> SpaceX [] OTHER -> Space) : Code(s) % Parts = Part}
 Next == UNCHANGED sc
 
-DeclOf(s) == CASE Family = "C06" -> MkDeclG(s) [] Family = "C07" -> MkDeclS(s) [] OTHER -> MkDecl(s)
+DeclOf(s) == CASE Family = "C06" -> MkDeclG(s) [] Family = "C07" -> MkDeclS(s) [] IsX -> MkDeclX(s) [] OTHER -> MkDecl(s)
 Emit == LET d == DeclOf(sc)
-            pr == IF Family = "C06" THEN MkProbeG(d, sc) ELSE MkProbe(d, sc.seed)
+            pr == IF Family = "C06" THEN MkProbeG(d, sc) ELSE IF IsX THEN MkProbeX(d, sc) ELSE MkProbe(d, sc.seed)
             pr2 == [MkProbe(d, sc.seed + 4) EXCEPT !.gv = pr.gv]
-        IN TLCSet(1, Append(TLCGet(1), [sc |-> sc, decl |-> d, probe |-> pr, pred |-> Predict(d, pr, pr2)]))
+        IN TLCSet(1, Append(TLCGet(1), [fam |-> Family, sc |-> sc, decl |-> d, probe |-> pr, pred |-> Predict(d, pr, pr2)]))
 
 (* model-level invariant checked on every scenario: the as-built placement
    equals the declared placement when no deviation is enabled *)
@@ -214,6 +311,17 @@ PlacementOK ==
   LET d == DeclOf(sc)
   IN \A i \in 1..Len(d.cons) :
         EmittedPoints(d.cons[i], d.method.N, d.method.M, d.method.degree, {}) = DeclaredPoints(d.cons[i], d.method.N, d.method.M, d.method.degree)
+
+(* C11 on the specification: the free-horizon problem restricted to T = c, t0 = c0 has the same
+   dynamics rows, declared-constraint slacks and objective as the fixed-horizon problem *)
+FreeEqualsFixed ==
+  Family = "C11" =>
+    LET d == DeclOf(sc)
+        pr == MkProbeX(d, sc)
+        dfix == [d EXCEPT !.T = Num(pr.T), !.t0 = Num(pr.t0)]
+        a == Predict(d, pr, pr)
+        b == Predict(dfix, pr, pr)
+    IN a.gaps = b.gaps /\ a.cons = b.cons /\ a.f = b.f /\ a.grid = b.grid
 
 Post == /\ ndJsonSerialize(IOEnv.OUT_FILE, TLCGet(1))
         /\ PrintT(<<"emitted", Len(TLCGet(1))>>)
